@@ -331,3 +331,19 @@ LEVEL_TEXT += _ADDR5B
 _ADDR5D = " Borrowed: R13.5 (codecs merge the user's dialect over the format dialect, never the reverse), R14.8 / R14.9 (strategy tables are never mutated or deep-copied in place: pass_through keeps its identity)."
 EXPLANATION += _ADDR5D
 LEVEL_TEXT += _ADDR5D
+
+
+_run_before_r6b = run
+
+
+def run(repo, rep, tier):  # noqa: F811 -- round-6 remedies (core/round6.py)
+    _run_before_r6b(repo, rep, tier)
+    if getattr(rep, "borrowed", False):
+        return
+    from ..core import round6 as _r6b
+    _r6b.codec_dialect_merge_order(repo, rep, "R04.7")
+
+
+_ADDR6C = '  Borrowed: R04.7.'
+EXPLANATION += _ADDR6C
+LEVEL_TEXT += _ADDR6C
